@@ -163,9 +163,22 @@ class Interp(Engine):
             left = right
         return res
 
+    def decided(self, c):
+        """True/False if the condition is already decided on this path (syntactically, or by a cheap entailment query)."""
+        cb = conc_bool(c)
+        if cb is not None:
+            return cb
+        cs = simp(c)
+        kn = self.known.get(cs.get_id())
+        if kn is not None and kn[0].eq(cs):
+            return kn[1]
+        return self.decide_iv(cs)
+
     def ev_IfExp(self, node):
         c = self.truth(self.ev(node.test))
         cb = conc_bool(c)
+        if cb is None and self.in_clause:
+            cb = self.decided(c)
         if cb is not None:
             return self.ev(node.body if cb else node.orelse)
         if self.in_clause:
@@ -186,9 +199,11 @@ class Interp(Engine):
         """Evaluate `node` under the extra assumption `guard` (clauses only). Returns None when the guard is
         infeasible on this path. Assumptions made inside are re-added as implications."""
         n0 = len(self.pc)
+        b0 = self.cur_bounds()
+        saved_b = (b0.clone(), self._bounds_n, self._bounds_last)
         self.solver.push()
         self.pc.append(guard)
-        self.solver.add(guard)
+        self.solver_add(guard)
         r = None
         try:
             try:
@@ -199,6 +214,7 @@ class Interp(Engine):
             extra = self.pc[n0 + 1:]
             del self.pc[n0:]
             self.solver.pop()
+            self._bounds, self._bounds_n, self._bounds_last = saved_b
         if r is not None:
             for e_ in extra:
                 self.assume(z3.Implies(guard, e_))
@@ -475,7 +491,7 @@ class Interp(Engine):
             self.in_quant += 1
             rng = z3.And(j >= 0, j < n)
             self.pc.append(rng)
-            self.solver.add(rng)
+            self.solver_add(rng)
             self.assign_target(gen.target, getter(j))
             elt = self.ev(node.elt)
             extra = self.pc[npc + 1:]
@@ -576,14 +592,14 @@ class Interp(Engine):
             self.in_quant += 1
             rng = z3.And(j >= 0, j < n)
             self.pc.append(rng)
-            self.solver.add(rng)
+            self.solver_add(rng)
             self.assign_target(gen.target, getter(j))
             conds = []
             for c in gen.ifs:
                 ct = self.truth(self.ev(c))
                 conds.append(ct)
                 self.pc.append(ct)
-                self.solver.add(ct)
+                self.solver_add(ct)
             body = self.truth(self.ev(node.elt))
             extra = self.pc[npc + 1 + len(conds):]
         finally:
@@ -964,8 +980,10 @@ class Interp(Engine):
             self.in_clause = saved
 
     def call_native(self, obj, args, kwargs, node):
-        from .spec import Uninterp
+        from .spec import Uninterp, SpecFn
         if isinstance(obj, Uninterp):
+            return obj.apply(self, args, kwargs)
+        if isinstance(obj, SpecFn):
             return obj.apply(self, args, kwargs)
         ext = self.contract.externals.get(qualname_of(obj)) if not isinstance(obj, type) else None
         if ext is not None:
